@@ -30,6 +30,7 @@ TEMPLATES = {
     'drainfilter': ('drainfilter.vtmpl', 'src/collections/vec.rs'),
     'intoiter': ('intoiter.vtmpl', 'src/collections/vec.rs'),
     'dedup': ('dedup.vtmpl', 'src/collections/vec.rs'),
+    'vecops': ('vecops.vtmpl', 'src/collections/vec.rs'),
 }
 
 
